@@ -100,6 +100,11 @@ func (c *caseRun) storePath(store string) string {
 			return filepath.Join(c.repo, ".git", "worktrees", "wt", "config.worktree")
 		}
 		return filepath.Join(c.repo, ".git", "config.worktree")
+	case "wtother":
+		if c.spec.Layout == "linked-wt" {
+			return filepath.Join(c.repo, ".git", "config.worktree")
+		}
+		return filepath.Join(c.repo, ".git", "worktrees", "wt", "config.worktree")
 	case "home":
 		return filepath.Join(c.env.Home, ".gitconfig")
 	case "xdg":
@@ -148,12 +153,16 @@ func setup(spec caseSpec) *caseRun {
 	c.repo = env.InitRepo("repo")
 	env.MustGit(c.repo, "commit", "-q", "--allow-empty", "-m", "init")
 	c.workDir = c.repo
-	if spec.Layout == "linked-wt" {
+	if spec.multiWt() {
 		env.MustGit(c.repo, "worktree", "add", "-q", "-b", "wtbranch", filepath.Join(env.Root, "wt"))
-		c.workDir = filepath.Join(env.Root, "wt")
+		if spec.Layout == "linked-wt" {
+			c.workDir = filepath.Join(env.Root, "wt")
+		}
 	}
 	if spec.WtCfgExt {
 		env.MustGit(c.repo, "config", "extensions.worktreeConfig", "true")
+	} else if spec.ExtFalse {
+		env.MustGit(c.repo, "config", "extensions.worktreeConfig", "false")
 	}
 	must(os.MkdirAll(filepath.Join(c.workDir, "sub", "dir"), 0o755))
 	c.outside = env.Dir("outside")
@@ -182,7 +191,7 @@ func setup(spec caseSpec) *caseRun {
 	}
 	// filter pre-state, grouped by store
 	hasInc := false
-	for _, store := range filterStores {
+	for _, store := range allStores {
 		s := ""
 		for _, f := range spec.Filters {
 			if f.Store == store {
@@ -344,6 +353,7 @@ func reported(res sbx.Result) bool {
 
 type counters struct {
 	hookFiles, cfgGroups, userHookChecks, customChecks, conflictsExpected, conflictsReported int64
+	wtRefusedFailed, wtRefusedExit0, wtRefusedInstallExit0, otherWtEntries                   int64
 }
 
 func (c *caseRun) judge(step int, cmd cmdSpec, pre state, res sbx.Result, post state, cnt *counters) []finding {
@@ -366,6 +376,20 @@ func (c *caseRun) judge(step int, cmd cmdSpec, pre state, res sbx.Result, post s
 		add("go-panic", "cmd-"+cmd.Kind, "git-lfs crashed", nil)
 	}
 	cnt.hookFiles += int64(len(pre.Hooks) + len(pre.Alt) + len(pre.Shared))
+	if c.gitRefusesWorktreeScope(cmd) && !cmd.Force { // observation: Git refuses this scope here
+		if res.Code != 0 {
+			cnt.wtRefusedFailed++
+		} else if cmd.Kind == "install" {
+			cnt.wtRefusedInstallExit0++
+		} else {
+			cnt.wtRefusedExit0++ // uninstall prints Git's refusal as a warning and goes on to the hooks
+		}
+	}
+	for _, e := range pre.Cfg {
+		if e.Scope == scopeOtherWt {
+			cnt.otherWtEntries++
+		}
+	}
 	cnt.cfgGroups += int64(pre.Groups)
 
 	// ---- clause 1: user hooks and unrelated files untouched without --force ----
@@ -437,6 +461,12 @@ func (c *caseRun) judge(step int, cmd cmdSpec, pre state, res sbx.Result, post s
 			if cmd.Scope == "worktree" { // lenient: either file may be the one Git picks
 				exempt["local"], exempt["worktree"] = true, true
 			}
+			if c.gitRefusesWorktreeScope(cmd) {
+				// several work trees, extensions.worktreeConfig off: Git refuses `config --worktree` and the
+				// manual says the extension "must be enabled to use this option"; there is no scope this
+				// command is aimed at, so nothing it removes is covered by uninstall's purpose.
+				exempt = map[string]bool{}
+			}
 		}
 		pg, qg := pre.groupValues(), post.groupValues()
 		for k, vals := range pg {
@@ -461,7 +491,7 @@ func (c *caseRun) judge(step int, cmd cmdSpec, pre state, res sbx.Result, post s
 			}
 			cnt.customChecks++
 			if strings.Join(qg[k], "\x00") != strings.Join(vals, "\x00") || len(qg[k]) != len(vals) {
-				add("custom-filter-replaced", "filter-custom-"+key+"@"+c.originStore(cfgEnt{Scope: parts[0], Origin: parts[1]}), fmt.Sprintf("%s in %s (%s) was %q, now %q", parts[2], parts[0], parts[1], vals, qg[k]), map[string]any{"key": parts[2], "scope": parts[0]})
+				add("custom-filter-replaced", c.wtScopeTrigger(cmd, "filter-custom-"+key+"@"+c.originStore(cfgEnt{Scope: parts[0], Origin: parts[1]})), fmt.Sprintf("%s in %s (%s) was %q, now %q", parts[2], parts[0], parts[1], vals, qg[k]), map[string]any{"key": parts[2], "scope": parts[0]})
 			}
 		}
 	}
@@ -499,6 +529,7 @@ func (c *caseRun) judge(step int, cmd cmdSpec, pre state, res sbx.Result, post s
 			}
 		}
 		if trig != "" {
+			trig = c.wtScopeTrigger(cmd, trig)
 			cnt.conflictsExpected++
 			if reported(res) {
 				cnt.conflictsReported++
@@ -755,7 +786,7 @@ func runCase(spec caseSpec) (cr caseResult) {
 func main() {
 	defer sbx.RemoveBase()
 	run := evid.New("C20", "exploration")
-	run.Rule = "seeded generator; case = pre-state {4 hooks x 23 content classes (absent, empty, blank, current, each historical text, re-indented, ragged, user script, user script with the LFS line, LFS text + extra line, LFS text + >=700 blank bytes + user code beyond byte 1024, same inside the window, 1-edit mutants, other hook's LFS text, CRLF, >1024-byte user script, non-executable, symlink to user/LFS/padded/dangling, directory)} x {filter.lfs.clean|smudge|process|required in {current, skip-smudge, historical, custom, empty}} x config store {~/.gitconfig, XDG, included file, repo config, config.worktree, --file} x core.hooksPath {unset, absolute, with space, relative, ~/} x layout {plain, linked work tree} + sequence of 1..6 commands (install/update/uninstall with --local/--worktree/--file/--force/--skip-smudge/--skip-repo/--manual, install hooks, uninstall hooks, track/untrack/clean/smudge/filter-process/fsck/migrate import) run from root/sub-directory/outside; 2 of 120 cases run `git lfs clone` with hooks coming from init.templateDir. Every (hook class, hook type) pair is the focus hook of one case per 120; class = (template, focus hook:class, focus filter store:key:class, hooksPath, layout, sequence shape). Fault dimension: 18 (quick) / 240 (thorough) further cases = one non-forced command of {update, install --local, install, an implicit hook installer, install hooks, uninstall --local, uninstall, uninstall hooks} facing a pre-existing hook git-lfs did not generate (12 content classes) while one system-call family {stat, open} on that hook's path fails once with {EIO, EACCES, ESTALE}, injected with strace -P <hook> -e inject=...; the injection sites come from one uninjected strace discovery run per command; a run counts only if the strace log shows the injected call; class additionally carries fault=<family>-<errno>/<command>."
+	run.Rule = "seeded generator; case = pre-state {4 hooks x 23 content classes (absent, empty, blank, current, each historical text, re-indented, ragged, user script, user script with the LFS line, LFS text + extra line, LFS text + >=700 blank bytes + user code beyond byte 1024, same inside the window, 1-edit mutants, other hook's LFS text, CRLF, >1024-byte user script, non-executable, symlink to user/LFS/padded/dangling, directory)} x {filter.lfs.clean|smudge|process|required in {current, skip-smudge, historical, custom, empty}} x config store {~/.gitconfig, XDG, included file, repo config, config.worktree, --file} x core.hooksPath {unset, absolute, with space, relative, ~/} x layout {plain, linked work tree} + sequence of 1..6 commands (install/update/uninstall with --local/--worktree/--file/--force/--skip-smudge/--skip-repo/--manual, install hooks, uninstall hooks, track/untrack/clean/smudge/filter-process/fsck/migrate import) run from root/sub-directory/outside; 2 of 120 cases run `git lfs clone` with hooks coming from init.templateDir. Every (hook class, hook type) pair is the focus hook of one case per 120; class = (template, focus hook:class, focus filter store:key:class, hooksPath, layout, sequence shape). Worktree-scope dimension: 28 (quick) / 560 (thorough) further cases cross {one work tree; several work trees with extensions.worktreeConfig unset / false / true; commands run in the main / the linked work tree} x pre-existing filter.lfs.* {unset, current, historical, custom} in {.git/config, config.worktree of this / of the other work tree, ~/.gitconfig} x sequences of install --worktree [--force], uninstall --worktree and their --local counterparts (every layout meets every value class once per 28); every config.worktree file Git does not list for the work tree in use is listed with --file and compared too. Fault dimension: 18 (quick) / 240 (thorough) further cases = one non-forced command of {update, install --local, install, an implicit hook installer, install hooks, uninstall --local, uninstall, uninstall hooks} facing a pre-existing hook git-lfs did not generate (12 content classes) while one system-call family {stat, open} on that hook's path fails once with {EIO, EACCES, ESTALE}, injected with strace -P <hook> -e inject=...; the injection sites come from one uninjected strace discovery run per command; a run counts only if the strace log shows the injected call; class additionally carries fault=<family>-<errno>/<command>."
 	run.Assumptions = []string{
 		"the list of texts/values git-lfs has generated (oracle.go) is complete: transcribed from lfs/hook.go and lfs/attribute.go",
 		"LFS-generated = equal to a listed text after removing common indentation and trimming; ragged-indented variants are not judged; blank hooks count as absent; empty filter values count as unset",
@@ -763,6 +794,7 @@ func main() {
 		"symlinked hooks: only the content of the link's target is judged",
 		"--system is exercised through --file (the real system config must not be touched); multi-valued filter keys inside one file are not generated",
 		"conflict reporting (clause 3) is required of explicit install/update/install hooks only: non-zero exit or a message naming the hook/key",
+		"--worktree with several work trees and extensions.worktreeConfig not enabled: Git refuses the scope and the manual requires the extension, so no scope is 'the one uninstall is aimed at' there (its clause-2 exemption does not apply); whether the command fails is only counted, what it replaces or removes is judged",
 		"fault dimension: a fault = one failing stat-/open-family call on the path of the user's hook (never ENOENT), delivered by strace to the git-lfs process only (git child processes are detached); under a delivered fault only hook/filter preservation and crashes are judged, not conflict reporting; filter.lfs.* reads/writes go through `git config` children and are not faulted",
 	}
 	n := run.N(120, 4080)
@@ -772,6 +804,11 @@ func main() {
 		specs[i] = genCase(run.Seed, i)
 	}
 	// ---- fault dimension (faults.go): discovery of the injection sites, then a fixed number of injected runs ----
+	// ---- layout coordinate of the --worktree scope (wtscope.go) ----
+	nWt := run.N(wtSlots, 20*wtSlots)
+	for k := 0; k < nWt; k++ {
+		specs = append(specs, genWtScopeCase(run.Seed, k, n+k))
+	}
 	nFault := run.N(18, 240)
 	found := map[string]touches{}
 	{
@@ -781,7 +818,7 @@ func main() {
 			dwg.Add(1)
 			go func(li int, label string) {
 				defer dwg.Done()
-				t, problem := discover(label, n+nFault+li)
+				t, problem := discover(label, n+nWt+nFault+li)
 				dmu.Lock()
 				defer dmu.Unlock()
 				run.Count("fault_discovery_runs", 1)
@@ -802,7 +839,7 @@ func main() {
 	run.Count("fault_injection_sites", int64(len(combos)))
 	if len(combos) > 0 {
 		for k := 0; k < nFault; k++ {
-			specs = append(specs, genFaultCase(run.Seed, k, n+k, combos))
+			specs = append(specs, genFaultCase(run.Seed, k, n+nWt+k, combos))
 		}
 	} else {
 		run.Count("fault_runs_not_started", int64(nFault))
@@ -907,6 +944,14 @@ func main() {
 		run.Count("custom_filter_preservation_checks", cr.cnt.customChecks)
 		run.Count("conflicts_expected", cr.cnt.conflictsExpected)
 		run.Count("conflicts_reported", cr.cnt.conflictsReported)
+		run.Count("worktree_scope_refused_by_git_cmd_failed", cr.cnt.wtRefusedFailed)
+		run.Count("worktree_scope_refused_by_git_uninstall_exit0", cr.cnt.wtRefusedExit0)
+		run.Count("worktree_scope_refused_by_git_install_exit0", cr.cnt.wtRefusedInstallExit0)
+		run.Count("other_worktree_config_entries_compared", cr.cnt.otherWtEntries)
+		if cr.spec.Template == "wtscope" {
+			run.Count("wtscope_cases", 1)
+			run.Count("wtscope_layout_"+cr.spec.Layout+"_ext_"+cr.spec.extSetting(), 1)
+		}
 		run.Count("idempotence_pairs_judged", int64(cr.idem))
 		run.Count("roundtrips_judged", int64(cr.round))
 		run.Count("install_ok_all_hooks_in_hookspath", int64(cr.landedOK))
@@ -948,7 +993,7 @@ func (c *caseRun) originStore(e cfgEnt) string {
 	if !filepath.IsAbs(p) {
 		p = filepath.Join(c.workDir, p)
 	}
-	for _, s := range filterStores {
+	for _, s := range allStores {
 		if filepath.Clean(c.storePath(s)) == filepath.Clean(p) {
 			return s
 		}
